@@ -610,6 +610,67 @@ def _closing_order() -> str:
     return f"Definition closing_order : list close_cb := {pos}.\n"
 
 
+def _abstract(cls: ast.ClassDef, translated: set, irrelevant: set) -> ast.ClassDef:
+    """copy of the class with the bodies of the T3-translated methods replaced by `...` (their signatures and
+    decorators stay pinned) and the bodies of methods irrelevant to the property replaced by `pass`"""
+    import copy
+    c = copy.deepcopy(cls)
+    for n in c.body:
+        if isinstance(n, ast.FunctionDef) and n.name in translated:
+            n.body = [ast.Expr(ast.Constant(...))]
+        elif isinstance(n, ast.FunctionDef) and n.name in irrelevant:
+            n.body = [ast.Pass()]
+    return _plain(c)
+
+
+def _plain(node: ast.AST) -> ast.AST:
+    """drop what does not matter: docstrings and annotations of every (nested) function"""
+    import copy
+    node = copy.deepcopy(node)
+    for n in ast.walk(node):
+        if isinstance(n, (ast.FunctionDef, ast.ClassDef)):
+            if n.body and isinstance(n.body[0], ast.Expr) and isinstance(n.body[0].value, ast.Constant) \
+                    and isinstance(n.body[0].value.value, str):
+                n.body = n.body[1:] or [ast.Pass()]
+        if isinstance(n, ast.FunctionDef):
+            n.returns = None
+            for a in n.args.args + n.args.kwonlyargs + n.args.posonlyargs + [x for x in (n.args.vararg, n.args.kwarg) if x]:
+                a.annotation = None
+            n.body = [x for x in n.body if not (isinstance(x, ast.AnnAssign) and x.value is None)] or [ast.Pass()]
+    return node
+
+
+def _statement_pins(mod: ast.Module) -> None:
+    """statement skeletons (pin audit): everything in local.py - and wsgi.ClosingIterator, which the middleware model
+    stands for - that the model or the oracle stands for and that is not translated, compared with tools/pins/c18_local.txt.
+    Holes: the method bodies translated by T3 (`...`), and the sub-expressions translated by T2
+    (<LOOKUP_CATCH>, <GCO_LOCAL_CATCH>, <GCO_STACK_TEST>, <GCO_VAR_CATCH>, <CLOSING_ORDER>)."""
+    parts = []
+    parts.append(px.skeleton(_plain(px.find_def(mod, "release_local"))))
+    parts.append(px.skeleton(_abstract(px.find_class(mod, "Local"),
+                                       {"__getattr__", "__setattr__", "__delattr__", "__iter__", "__release_local__"}, set())))
+    parts.append(px.skeleton(_abstract(px.find_class(mod, "LocalStack"), {"push", "pop", "top", "__release_local__"}, set())))
+    parts.append(px.skeleton(_abstract(px.find_class(mod, "LocalManager"), set(), {"__repr__"})))
+    parts.append(px.skeleton(_abstract(px.find_class(mod, "_ProxyLookup"), set(), {"__repr__"}),
+                             {"except RuntimeError:": "except <LOOKUP_CATCH>:"}))
+    parts.append(px.skeleton(_abstract(px.find_class(mod, "_ProxyIOp"), set(), set())))
+    parts.append(px.skeleton(_plain(px.find_def(mod, "_l_to_r_op"))))
+    parts.append(px.skeleton(_plain(px.find_def(mod, "_identity"))))
+    lp = px.find_class(mod, "LocalProxy")
+    init = _abstract(ast.ClassDef(name="LocalProxy", bases=[], keywords=[], decorator_list=[],
+                                  body=[_method(lp, "__init__")]), set(), set())
+    parts.append(px.skeleton(init, {"except AttributeError:": "except <GCO_LOCAL_CATCH>:",
+                                    "except LookupError:": "except <GCO_VAR_CATCH>:",
+                                    "if obj is None:": "if <GCO_STACK_TEST>:", "if not obj:": "if <GCO_STACK_TEST>:"}))
+    parts.append("# LocalProxy class body: every other statement is an entry of the regenerated proxy_table (T1)")
+    ci = px.find_class(px.load("wsgi.py"), "ClosingIterator")
+    parts.append(px.skeleton(_abstract(ci, set(), set()),
+                             {"callbacks.insert(0, iterable_close)": "<CLOSING_ORDER>",
+                              "callbacks.append(iterable_close)": "<CLOSING_ORDER>"}))
+    px.check_pin("C18", "c18_local.txt", "\n\n".join(parts) + "\n",
+                 "local.py / wsgi.ClosingIterator statement skeleton (untranslated code the C18 model stands for)")
+
+
 def gen_text() -> str:
     mod = px.load("local.py")
     text = ("(* GENERATED by tools/c18.py from local.py on every run - do not edit *)\n"
@@ -638,6 +699,7 @@ def gen_text() -> str:
             raise px.Unsupported(f"{cname}.__call__ no longer returns LocalProxy(self, name, ...)")
     _pin_release_and_manager(mod)
     text += _pin_middleware(mod)
+    _statement_pins(mod)
     text += _closing_order()
     text += _proxy_tables(mod)
     return text
@@ -722,7 +784,10 @@ class Env:
         self.mod = mod
         self.L = [mod.Local(), mod.Local()]
         self.S = [mod.LocalStack(), mod.LocalStack()]
-        self.manager = mod.LocalManager([self.L[0], self.S[0], self.L[1], self.S[1]])
+        try:
+            self.manager = mod.LocalManager([self.L[0], self.S[0], self.L[1], self.S[1]])
+        except Exception:  # noqa: BLE001   (a changed signature must not stop the other scenarios)
+            self.manager = None
 
         env = self
 
@@ -744,7 +809,10 @@ class Env:
         def app(environ, start_response):
             start_response("200 OK", [("Content-Type", "text/plain")])
             return Body(environ["x"]) if environ["x"] else [b"x"]
-        self.wrapped = [self.manager.make_middleware(app), self.manager.middleware(app)]
+        try:
+            self.wrapped = [self.manager.make_middleware(app), self.manager.middleware(app)]
+        except Exception:  # noqa: BLE001
+            self.wrapped = None
         self.reset()
 
     def reset(self):
@@ -1012,7 +1080,8 @@ class PayloadWatch:
     payload of a ContextVar in any context is remembered with its contents, and must never change afterwards"""
 
     def __init__(self, env: Env):
-        self.vars = [l._Local__storage for l in env.L] + [s._storage for s in env.S]
+        self.vars = [v for v in [getattr(l, "_Local__storage", None) for l in env.L] + [getattr(s, "_storage", None) for s in env.S]
+                     if isinstance(v, contextvars.ContextVar)]
         self.seen = {}
 
     def scan(self, ctxs):
@@ -1757,7 +1826,10 @@ def run(chk: Check) -> None:
     if runtime != entry_names() or special:
         chk.broken("correspondence", "regenerated proxy_table vs LocalProxy at run time",
                    f"table/runtime differ: {sorted(set(runtime) ^ set(entry_names()))}; special methods defined directly on the proxy: {special}")
-    other_proxy_kinds(chk, wl)
+    try:
+        other_proxy_kinds(chk, wl)
+    except Exception as e:  # noqa: BLE001
+        chk.broken("harness", "other_proxy_kinds", f"{type(e).__name__}: {e}")
     kinds = collections.Counter()
     exh: dict = {}
     st = dict(n=0, bad=0, mism=0, spec_mism=0, first_bad=None, t_impl=0.0, t_model=0.0, samples=[])
@@ -1959,6 +2031,14 @@ def main(chk: Check) -> None:
         "validated by differential execution",
         "hand-written model of the LocalProxy / _ProxyLookup layer for __bool__, __repr__, __getattr__, __setattr__, "
         "_get_current_object (Model.gco / proxy_out), validated by differential execution",
+        "statement pins tools/pins/c18_local.txt: every function / class of local.py the model stands for that is not translated "
+        "(release_local; Local / LocalStack __slots__, __init__, __call__ and the signatures of the T3 methods; LocalManager; "
+        "_ProxyLookup; _ProxyIOp; _l_to_r_op; _identity; LocalProxy.__init__) and wsgi.ClosingIterator, with holes where T2/T3 "
+        "translate; the function argument f of each proxy_table entry (operator.add, ...) is not pinned: which built-in an entry "
+        "forwards to is outside this property, only that it is forwarded to the current context's object",
+        "validated differentially only (CPython library code, not werkzeug code, so no pin): contextvars.ContextVar / Context / "
+        "copy_context, threading and asyncio context inheritance, dict / list methods, functools.partial, operator.attrgetter, "
+        "functools.update_wrapper",
         "extraction ExtrOcamlBasic + tools/conv.ml + coq/C18/driver.ml, OCaml 4.13.1",
         "granularity: one Local / LocalStack method call is one step; preemption inside a call is covered only by "
         "C18_cow_sound (no existing cell is written), not exhibited by the harness",
